@@ -1,3 +1,400 @@
-//! C09 — not built yet.
+//! C09 — expressions parse with the documented precedence and associativity.
+//! Every case is a token sequence of the expression sub-language rendered to text and parsed by the real parser
+//! as the objective of `min <text>␤s.t.␤1 >= 0`; the `PreExp` (spans dropped) or the rejection is compared with
+//! the Lean model of the PEG fragment + pest's Pratt loop; the oracle evaluates the compiled objective (or the
+//! `PreExp` when the program does not compile) against an independent precedence-climbing reading of the text.
 use crate::case::Case;
-pub fn generate(_seed: u64, _n: usize, _thorough: bool, _corpus: Option<&str>) -> Vec<Case> { vec![] }
+use crate::rng::Rng;
+use crate::sx;
+use crate::syntax::{self, T, bin_tok, int, w};
+use indexmap::IndexMap;
+use rooc::RoocParser;
+use std::collections::HashSet;
+
+fn source_of(text: &str, vars: &[String]) -> String {
+    let mut s = format!("min {}\ns.t.\n1 >= 0\n", text);
+    if !vars.is_empty() {
+        s.push_str("define\n");
+        s.push_str(&format!("{} as Real\n", vars.join(", ")));
+    }
+    s
+}
+
+/// (canonical answer, variables of the tree)
+fn parse_objective(text: &str) -> (String, Vec<String>, bool) {
+    let src = source_of(text, &[]);
+    let res = std::panic::catch_unwind(|| RoocParser::new(src.clone()).parse());
+    match res {
+        Err(_) => ("(err panic)".into(), vec![], false),
+        Ok(Err(_)) => ("(err reject)".into(), vec![], false),
+        Ok(Ok(pm)) => {
+            let e = &pm.objective().rhs;
+            let mut vars = vec![];
+            syntax::variables(e, &mut vars);
+            (format!("(ok {})", syntax::pre_exp(e, &src)), vars, true)
+        }
+    }
+}
+
+fn compiled_objective(text: &str, vars: &[String]) -> Option<String> {
+    let src = source_of(text, vars);
+    let res = std::panic::catch_unwind(|| RoocParser::new(src).parse_and_transform(vec![], &IndexMap::new()));
+    match res {
+        Ok(Ok(m)) => Some(sx::exp(&m.objective().rhs)),
+        _ => None,
+    }
+}
+
+fn features(toks: &[T], tags: &mut Vec<String>) {
+    let mut f: Vec<&str> = vec![];
+    for (i, t) in toks.iter().enumerate() {
+        match t {
+            T::AmpAmp | T::BarBar | T::Bang | T::Arrow | T::DArrow => f.push("alias"),
+            T::Word(s) if ["and", "or", "xor", "implies", "iff", "not"].contains(&s.as_str()) => f.push("keyword-op"),
+            T::Word(s) if s == "true" || s == "false" => f.push("bool"),
+            T::Word(s) if s.starts_with('$') || s.starts_with('_') => f.push("prefixed-ident"),
+            T::LPar if i > 0 && matches!(toks[i - 1], T::Word(_)) => f.push("call-shape"),
+            T::LPar if i > 0 && matches!(toks[i - 1], T::Int(_) | T::Float(_) | T::RPar) => f.push("imul-paren"),
+            T::Word(_) if i > 0 && matches!(toks[i - 1], T::Int(_) | T::Float(_) | T::RPar) => f.push("imul-var"),
+            T::Int(_) | T::Float(_) if i > 0 && matches!(toks[i - 1], T::Int(_) | T::Float(_) | T::RPar) => f.push("imul-num"),
+            T::Float(_) => f.push("float"),
+            T::LPar => f.push("paren"),
+            T::Comma => f.push("comma"),
+            _ => {}
+        }
+    }
+    f.sort();
+    f.dedup();
+    tags.extend(f.into_iter().map(String::from));
+}
+
+fn one(toks: &[T], mode: u8, r: &mut Rng, stream: &str) -> Case {
+    let text = syntax::render(toks, mode, r);
+    one_text(&text, toks, stream)
+}
+
+fn one_text(text: &str, toks: &[T], stream: &str) -> Case {
+    let (imp, vars, accepted) = parse_objective(text);
+    let mut c = Case::default();
+    c.req = format!("parse {}", sx::q(text));
+    c.imp = imp.clone();
+    c.show = text.to_string();
+    c.tags = vec![stream.to_string(), if accepted { "accept".into() } else { "reject".into() }];
+    features(toks, &mut c.tags);
+    let nops = imp.matches("(bin ").count() + imp.matches("(un ").count();
+    c.tags.push(format!("ops-{}", nops.min(6)));
+    c.nontrivial = accepted && nops >= 1;
+    let impl_part = if !accepted {
+        "reject".to_string()
+    } else {
+        match compiled_objective(text, &vars) {
+            Some(e) => { c.tags.push("compiled".into()); format!("(compiled {})", e) }
+            None => { c.tags.push("pre-only".into()); format!("(pre {})", &imp[4..imp.len() - 1]) }
+        }
+    };
+    c.oracle = format!("check {} {}", sx::q(text), impl_part);
+    // words that begin with `true`/`false`: the same text with those words renamed to plain identifiers, so that the
+    // oracle can tell the known `boolean`-rule defect from any other deviation in the same case
+    if let Some(twin) = dequirk(text) {
+        let (imp2, _, ok2) = parse_objective(&twin);
+        let part2 = if ok2 { format!("(pre {})", &imp2[4..imp2.len() - 1]) } else { "reject".to_string() };
+        c.oracle.push_str(&format!(" (twin {} {})", sx::q(&twin), part2));
+        c.tags.push("bool-prefixed-word".into());
+    }
+    // alias spellings mean the same as the keywords: checked on the implementation directly
+    if let (true, Some(swapped)) = (accepted, syntax::alias_twin(toks)) {
+        let mut r0 = Rng::new(0);
+        let t2 = syntax::render(&swapped, 0, &mut r0);
+        let (imp2, _, _) = parse_objective(&t2);
+        // float lexemes and everything else are spelled identically, so the canonical trees must be equal
+        if imp2 != imp {
+            c.impl_violation = Some(format!("alias spelling changes the parse: `{}` -> {} but `{}` -> {}", text, imp, t2, imp2));
+            c.sig = Some("alias-differs".into());
+        }
+        c.tags.push("alias-twin".into());
+    }
+    c
+}
+
+/// rename every word that starts (any letter case) with `true` / `false`, is not exactly that literal and is not
+/// a function name in call position, to a fresh plain identifier
+fn dequirk(text: &str) -> Option<String> {
+    let cs: Vec<char> = text.chars().collect();
+    let mut out = String::new();
+    let mut i = 0;
+    let mut k = 0;
+    let mut changed = false;
+    let wc = |c: char| c.is_ascii_alphanumeric() || c == '_';
+    while i < cs.len() {
+        if cs[i] == '$' || wc(cs[i]) {
+            let st = i;
+            i += 1;
+            while i < cs.len() && wc(cs[i]) { i += 1; }
+            let word: String = cs[st..i].iter().collect();
+            let low = word.to_ascii_lowercase();
+            let boolish = (low.starts_with("true") || low.starts_with("false")) && word != "true" && word != "false";
+            let mut j = i;
+            while j < cs.len() && (cs[j] == ' ' || cs[j] == '\t') { j += 1; }
+            let call = j < cs.len() && cs[j] == '(' && word.chars().all(|c| c.is_ascii_alphabetic());
+            if boolish && !call && !cs[st].is_ascii_digit() {
+                out.push_str(&format!("qz{}", ["a", "b", "c", "d", "e", "f", "g", "h"][k % 8]));
+                k += 1;
+                changed = true;
+            } else {
+                out.push_str(&word);
+            }
+        } else {
+            out.push(cs[i]);
+            i += 1;
+        }
+    }
+    if changed { Some(out) } else { None }
+}
+
+const CLASSES: [&str; 14] = ["2", "x", "(", ")", "-", "*", "+", "and", "or", "xor", "->", "<->", "not", ","];
+fn class_tok(s: &str) -> T {
+    match s {
+        "2" => int("2"), "(" => T::LPar, ")" => T::RPar, "," => T::Comma,
+        "x" => w("x"),
+        o => bin_tok(o),
+    }
+}
+
+fn exhaustive(len: usize, out: &mut Vec<Vec<T>>) {
+    let mut idx = vec![0usize; len];
+    loop {
+        out.push(idx.iter().map(|&i| class_tok(CLASSES[i])).collect());
+        let mut k = len;
+        loop {
+            if k == 0 { return; }
+            k -= 1;
+            idx[k] += 1;
+            if idx[k] < CLASSES.len() { break; }
+            idx[k] = 0;
+        }
+    }
+}
+
+const LEAVES: [&str; 4] = ["a", "b", "c", "d"];
+
+/// random well-formed token sequence (expression grammar with random redundant/needed parentheses)
+pub struct GenCfg { pub calls: bool, pub odd_words: bool, pub bools: bool }
+pub const FULL: GenCfg = GenCfg { calls: true, odd_words: true, bools: true };
+
+pub fn gen_exp(r: &mut Rng, g: &GenCfg, depth: u32, out: &mut Vec<T>) {
+    if depth == 0 || r.chance(1, 4) { return gen_leaf(r, g, depth, out); }
+    match r.below(10) {
+        0..=6 => {
+            gen_operand(r, g, depth - 1, out);
+            let n = 1 + r.below(3);
+            for _ in 0..n {
+                out.push(bin_tok(syntax::BIN_SPELLINGS[r.below(13)].0));
+                gen_operand(r, g, depth - 1, out);
+            }
+        }
+        7 | 8 => gen_operand(r, g, depth, out),
+        _ => gen_leaf(r, g, depth, out),
+    }
+}
+fn gen_operand(r: &mut Rng, g: &GenCfg, depth: u32, out: &mut Vec<T>) {
+    if r.chance(1, 5) { out.push(bin_tok(*r.pick(&["-", "not", "!"]))); }
+    if depth > 0 && r.chance(1, 3) {
+        out.push(T::LPar);
+        gen_exp(r, g, depth - 1, out);
+        out.push(T::RPar);
+    } else {
+        gen_leaf(r, g, depth, out);
+    }
+}
+fn gen_leaf(r: &mut Rng, g: &GenCfg, depth: u32, out: &mut Vec<T>) {
+    match r.below(16) {
+        0..=5 => out.push(w(*r.pick(&["x", "y", "z", "w"]))),
+        6 | 7 => out.push(int(*r.pick(&["0", "1", "2", "3", "10"]))),
+        8 => out.push(T::Float(r.pick(&["2.5", "0.25", "1.0", "3.75", "0.1", "2.50"]).to_string())),
+        9 if g.bools => out.push(w(*r.pick(&["true", "false"]))),
+        10 if g.odd_words => out.push(w(*r.pick(&["android", "order", "nothing", "iffy", "xor1", "implies2", "mins", "format", "$x", "_u", "inx", "ast", "lets", "And", "NOT"]))),
+        11 | 12 => {
+            // implicit multiplication: (number | parenthesis)+ variable?
+            let n = 1 + r.below(3);
+            for _ in 0..n {
+                if depth > 0 && r.chance(1, 2) {
+                    out.push(T::LPar);
+                    gen_exp(r, g, depth - 1, out);
+                    out.push(T::RPar);
+                } else if r.chance(1, 4) {
+                    out.push(T::Float(r.pick(&["2.5", "0.5"]).to_string()));
+                } else {
+                    out.push(int(*r.pick(&["2", "3", "4"])));
+                }
+            }
+            if n == 1 || r.chance(1, 2) { out.push(w(*r.pick(if g.odd_words { &["x", "y", "z", "$x", "truex", "android"][..] } else { &["x", "y", "z"][..] }))); }
+        }
+        13 if depth > 0 && g.calls => {
+            out.push(w(*r.pick(&["f", "g", "and", "min", "len", "truex"])));
+            out.push(T::LPar);
+            let n = r.below(3);
+            for i in 0..n {
+                if i > 0 { out.push(T::Comma); }
+                gen_exp(r, g, depth - 1, out);
+            }
+            out.push(T::RPar);
+        }
+        _ => out.push(w(*r.pick(&LEAVES))),
+    }
+}
+
+fn mutate(r: &mut Rng, toks: &mut Vec<T>) {
+    let pool: Vec<T> = CLASSES.iter().map(|c| class_tok(c)).chain([T::Bang, T::Slash, T::AmpAmp, T::BarBar, w("true"), w("implies"), w("iff"), T::Float("1.5".into()), w("truex"), w("y")]).collect();
+    if toks.is_empty() { toks.push(r.pick(&pool).clone()); return; }
+    match r.below(4) {
+        0 => { let i = r.below(toks.len()); toks.remove(i); }
+        1 => { let i = r.below(toks.len() + 1); toks.insert(i, r.pick(&pool).clone()); }
+        2 => { let i = r.below(toks.len()); toks[i] = r.pick(&pool).clone(); }
+        _ => { if toks.len() >= 2 { let i = r.below(toks.len() - 1); toks.swap(i, i + 1); } }
+    }
+}
+
+pub fn generate(seed: u64, n: usize, thorough: bool, corpus: Option<&str>) -> Vec<Case> {
+    let mut r = Rng::new(seed);
+    let mut cases = vec![];
+    let mut seen: HashSet<String> = HashSet::new();
+    let mut push = |c: Case, cases: &mut Vec<Case>| { if seen.insert(c.show.clone()) { cases.push(c) } };
+
+    // --- corpus: one expression text per line (seeded findings and past failures), replayed first
+    if let Some(dir) = corpus {
+        if let Ok(rd) = std::fs::read_dir(dir) {
+            let mut files: Vec<_> = rd.filter_map(|e| e.ok()).map(|e| e.path()).collect();
+            files.sort();
+            for f in files {
+                if let Ok(txt) = std::fs::read_to_string(&f) {
+                    for line in txt.lines() {
+                        let line = line.trim_end();
+                        if line.is_empty() || line.starts_with('#') { continue; }
+                        push(one_text(line, &[], "corpus"), &mut cases);
+                    }
+                }
+            }
+        }
+    }
+
+    // --- all token sequences over 14 token classes up to a length bound
+    let max_len = if thorough { 5 } else { 4 };
+    for len in 1..=max_len {
+        let mut seqs = vec![];
+        exhaustive(len, &mut seqs);
+        for s in seqs { push(one(&s, 0, &mut r, "exhaustive-tokens"), &mut cases); }
+    }
+
+    // --- uniformly random sequences over the same classes, beyond the exhaustive bound
+    let nrand = if thorough { 10 * n } else { 5 * n };
+    for _ in 0..nrand {
+        let len = max_len + 1 + r.below(5);
+        let t: Vec<T> = (0..len).map(|_| class_tok(CLASSES[r.below(CLASSES.len())])).collect();
+        push(one(&t, 0, &mut r, "random-tokens"), &mut cases);
+    }
+
+    // --- every pair (and triple) of binary operators, every spelling, with and without prefix operators
+    let sp = syntax::BIN_SPELLINGS;
+    for (s1, _) in sp.iter() {
+        for (s2, _) in sp.iter() {
+            for mask in 0..8u32 {
+                let mut t = vec![];
+                for (i, leaf) in ["a", "b", "c"].iter().enumerate() {
+                    if mask & (1 << i) != 0 { t.push(if (mask + i as u32) % 2 == 0 { T::Minus } else { w("not") }); }
+                    t.push(w(leaf));
+                    if i == 0 { t.push(bin_tok(s1)); }
+                    if i == 1 { t.push(bin_tok(s2)); }
+                }
+                push(one(&t, 0, &mut r, "operator-pairs"), &mut cases);
+            }
+        }
+    }
+    let canon9 = ["+", "-", "*", "/", "and", "or", "xor", "->", "<->"];
+    for s1 in canon9 { for s2 in canon9 { for s3 in canon9 {
+        if !thorough && r.below(3) != 0 { continue; }
+        let t = vec![w("a"), bin_tok(s1), w("b"), bin_tok(s2), w("c"), bin_tok(s3), w("d")];
+        push(one(&t, 1, &mut r, "operator-triples"), &mut cases);
+    } } }
+
+    // --- implicit multiplication: every arrangement of up to 4 atoms {2, (a), (a+b), x} in the contexts a/_ , -_ , _*c
+    let atoms: [Vec<T>; 5] = [vec![int("2")], vec![T::LPar, w("a"), T::RPar], vec![T::LPar, w("a"), T::Plus, w("b"), T::RPar], vec![w("x")], vec![T::Float("2.5".into())]];
+    let mut arrangements: Vec<Vec<usize>> = vec![];
+    for len in 1..=(if thorough { 4 } else { 3 }) {
+        let mut idx = vec![0usize; len];
+        'outer: loop {
+            arrangements.push(idx.clone());
+            let mut k = len;
+            loop {
+                if k == 0 { break 'outer; }
+                k -= 1;
+                idx[k] += 1;
+                if idx[k] < atoms.len() { break; }
+                idx[k] = 0;
+            }
+        }
+    }
+    for arr in &arrangements {
+        let body: Vec<T> = arr.iter().flat_map(|&i| atoms[i].clone()).collect();
+        if !syntax::in_domain(&body) { continue; }
+        for ctx in 0..5 {
+            let mut t = match ctx { 1 => vec![w("c"), T::Slash], 2 => vec![T::Minus], 3 => vec![w("not")], _ => vec![] };
+            t.extend(body.clone());
+            if ctx == 4 { t.extend([T::Star, w("c")]); }
+            let mode = if ctx == 0 { 1 } else { 0 };
+            push(one(&t, mode, &mut r, "implicit-mul"), &mut cases);
+        }
+    }
+
+    // --- identifiers around keywords: prefix / suffix / case / `$` `_` decorations, in leaf, operator,
+    //     implicit-multiplication and call position
+    let kws = ["for", "min", "max", "where", "true", "false", "in", "as", "define", "let", "solve", "and", "or", "not", "implies", "iff", "xor"];
+    for k in kws {
+        let cap = format!("{}{}", k[..1].to_uppercase(), &k[1..]);
+        let variants = [k.to_string(), format!("{}x", k), format!("{}1", k), format!("x{}", k), cap, k.to_uppercase(), format!("${}", k), format!("_{}", k), format!("{}{}", k, k)];
+        for v in variants.iter() {
+            let forms: Vec<Vec<T>> = vec![
+                vec![w(v)],
+                vec![w(v), T::Plus, int("1")],
+                vec![w("a"), w(v), w("b")],
+                vec![int("2"), w(v)],
+                vec![w(v), T::LPar, w("a"), T::RPar],
+                vec![T::Minus, w(v)],
+                vec![w("not"), w(v)],
+                vec![w("a"), T::Plus, w(v), w("b")],
+            ];
+            for f in forms {
+                if !syntax::in_domain(&f) { continue; }
+                push(one(&f, 0, &mut r, "keyword-identifiers"), &mut cases);
+            }
+        }
+    }
+
+    // --- numbers: i64 boundary, leading zeros, floats
+    for t in [vec![int("9223372036854775807")], vec![int("9223372036854775808")], vec![int("007"), w("x")], vec![int("0")],
+              vec![T::Float("0.1".into()), T::Plus, T::Float("2.50".into())], vec![T::Minus, int("9223372036854775808")],
+              vec![int("99999999999999999999"), T::Star, w("x")], vec![T::Float("00.5".into())],
+              vec![w("f"), T::LPar, int("99999999999999999999"), T::RPar], vec![int("2"), T::LPar, int("99999999999999999999"), T::RPar]] {
+        push(one(&t, 1, &mut r, "numbers"), &mut cases);
+    }
+
+    // --- random well-formed sequences (with all spellings, redundant parentheses, calls, implicit products),
+    //     each also rendered tightly / with random spacing and comments, and one mutation of it
+    let mut made = 0;
+    let mut guard = 0;
+    while made < n && guard < 20 * n + 100 {
+        guard += 1;
+        let mut t = vec![];
+        let depth = 1 + r.below(4) as u32;
+        gen_exp(&mut r, &FULL, depth, &mut t);
+        if t.len() > 25 || !syntax::in_domain(&t) { continue; }
+        let before = cases.len();
+        push(one(&t, 0, &mut r, "random-wellformed"), &mut cases);
+        if r.chance(1, 2) { push(one(&t, 1, &mut r, "random-tight"), &mut cases); }
+        if r.chance(1, 2) { push(one(&t, 2, &mut r, "random-spacing"), &mut cases); }
+        let mut m = t.clone();
+        for _ in 0..(1 + r.below(2)) { mutate(&mut r, &mut m); }
+        if syntax::in_domain(&m) && m.len() <= 26 { push(one(&m, 0, &mut r, "random-mutated"), &mut cases); }
+        if cases.len() > before { made += 1; }
+    }
+    cases
+}
